@@ -98,6 +98,7 @@ namespace detail
 		}
 	};
 
+#	if GLM_ARCH & GLM_ARCH_SSE41_BIT // _mm_min/max_epi32 and _mm_min/max_epu32 are SSE4.1 instructions
 	template<qualifier Q>
 	struct compute_min_vector<4, int, Q, true>
 	{
@@ -119,6 +120,7 @@ namespace detail
 			return result;
 		}
 	};
+#	endif//GLM_ARCH & GLM_ARCH_SSE41_BIT
 
 	template<qualifier Q>
 	struct compute_max_vector<4, float, Q, true>
@@ -131,6 +133,7 @@ namespace detail
 		}
 	};
 
+#	if GLM_ARCH & GLM_ARCH_SSE41_BIT // _mm_min/max_epi32 and _mm_min/max_epu32 are SSE4.1 instructions
 	template<qualifier Q>
 	struct compute_max_vector<4, int, Q, true>
 	{
@@ -152,6 +155,7 @@ namespace detail
 			return result;
 		}
 	};
+#	endif//GLM_ARCH & GLM_ARCH_SSE41_BIT
 
 	template<qualifier Q>
 	struct compute_clamp_vector<4, float, Q, true>
@@ -164,6 +168,7 @@ namespace detail
 		}
 	};
 
+#	if GLM_ARCH & GLM_ARCH_SSE41_BIT // _mm_min/max_epi32 and _mm_min/max_epu32 are SSE4.1 instructions
 	template<qualifier Q>
 	struct compute_clamp_vector<4, int, Q, true>
 	{
@@ -185,6 +190,7 @@ namespace detail
 			return result;
 		}
 	};
+#	endif//GLM_ARCH & GLM_ARCH_SSE41_BIT
 
 	template<qualifier Q>
 	struct compute_mix_vector<4, float, bool, Q, true>
